@@ -420,9 +420,57 @@ def tagEnv (position extent : List Rat) (units : List Str) (nrefs : Nat) (refs :
   | .tag_position => .rats position
   | .tag_extent => .rats extent
   | .tag_references => .sized nrefs
+  | .tag_references___shape => .intss (refs.map fun da => da.shape.map Int.ofNat)
+  | .posdim => .int position.length
+  | .extlen => .int extent.length
   | .refs_units => .strss (refs.map getDimUnits)
   | .tag_units => .strs units
   | _ => .none
+
+theorem fires_three {ρ : Type} (env : ρ → Val) (c d e : Expr ρ) (v w x : Val) (h : eval env .none c = .ok v)
+    (h2 : truthy v = true → eval env .none d = .ok w)
+    (h3 : truthy v = true → truthy w = true → eval env .none e = .ok x) :
+    fires env [c, d, e] = .ok (truthy v && (truthy w && truthy x)) := by
+  simp only [fires, h]
+  cases hv : truthy v
+  · rfl
+  · simp only [h2 hv, if_true, Bool.true_and]
+    cases hw : truthy w
+    · rfl
+    · simp only [h3 hv hw, if_true, Bool.true_and]
+      cases truthy x <;> rfl
+
+/-- `any(p != len(shape) for shape in shapes)`: `rp` reads the int `p`, `rs` the shapes of the referenced arrays -/
+theorem eval_rankMismatch {ρ : Type} (env : ρ → Val) (bv : Val) (rs rp : ρ) (p : Nat) (refs : List DataArray)
+    (h1 : env rs = .intss (refs.map fun da => da.shape.map Int.ofNat)) (h2 : env rp = .int p) :
+    eval env bv (.anyIn (.read rs) none (.cmp .ne (.read rp) (.len .bound))) =
+      .ok (.bool (refs.any fun da => p != da.shape.length)) := by
+  have := eval_anyIn_none env bv (.read rs) (.cmp .ne (.read rp) (.len .bound))
+    (.intss (refs.map fun da => da.shape.map Int.ofNat)) ((refs.map fun da => da.shape.map Int.ofNat).map .ints)
+    (fun it => match it with | .ints x => p != x.length | _ => false) (by simp [eval, h1]) rfl
+    (by
+      intro it hit
+      obtain ⟨x, -, rfl⟩ := List.mem_map.mp hit
+      refine ⟨.bool (p != x.length), ?_, rfl⟩
+      simp [eval, h2, lenOf, ok_bind, pure_ok, compare_ne_int, natCast_bne])
+  rw [this, List.any_map, List.any_map]
+  have : (((fun it => match it with | Val.ints x => p != x.length | _ => false) ∘ Val.ints) ∘
+      fun da : DataArray => da.shape.map Int.ofNat) = fun da => p != da.shape.length := by
+    funext da
+    simp
+  rw [this]
+
+theorem chain6 {α : Type} (b1 b2 b3 b4 b5 b6 : Bool) (m1 m2 m3 m4 m5 m6 : α) :
+    (let x6 := if b6 then [m6] else []
+     let x5 := if b5 then m5 :: x6 else x6
+     let x4 := if b4 then m4 :: x5 else x5
+     let x3 := if b3 then m3 :: x4 else x4
+     let x2 := if b2 then m2 :: x3 else x3
+     if b1 then m1 :: x2 else x2) =
+    (if b1 then [m1] else []) ++ (if b2 then [m2] else []) ++ (if b3 then [m3] else []) ++ (if b4 then [m4] else []) ++
+      (if b5 then [m5] else []) ++ (if b6 then [m6] else []) := by
+  cases b1 <;> cases b2 <;> cases b3 <;> cases b4 <;> cases b5 <;> cases b6 <;> rfl
+
 
 /-- `any(len(ru) != len(units) for ru in refs_units)` -/
 theorem eval_lenMismatch {ρ : Type} (env : ρ → Val) (bv : Val) (rr ru : ρ) (units : List Str) (L : List (List Str))
@@ -462,6 +510,10 @@ theorem guards_tag (position extent : List Rat) (arrays : List DataArray) (t : T
     fired (tagEnv position extent t.units t.refs.length (refArrays arrays t.refs)) guards_check_tag =
       .ok ((if t.posLen == 0 then [.NoPosition] else []) ++
            (if t.extLen != 0 && t.extLen != t.posLen then [.PositionExtentMismatch] else []) ++
+           (if !t.refs.isEmpty && (refArrays arrays t.refs).any (fun da => t.posLen != da.shape.length)
+            then [.PositionDimensionMismatch] else []) ++
+           (if !t.refs.isEmpty && (t.extLen != 0 && (refArrays arrays t.refs).any (fun da => t.extLen != da.shape.length))
+            then [.ExtentDimensionMismatch] else []) ++
            (if !t.refs.isEmpty && ((refArrays arrays t.refs).map getDimUnits).any (fun ru => ru.length != t.units.length)
             then [.ReferenceUnitsMismatch] else []) ++
            (if anyNonSi t.units then [.InvalidUnit] else [])) := by
@@ -479,21 +531,34 @@ theorem guards_tag (position extent : List Rat) (arrays : List DataArray) (t : T
       simp only [fires, eval, env, tagEnv, truthy, ok_bind, pure_ok, lenOf, compare_ne_int, natCast_bne,
         List.isEmpty_cons, Bool.not_false, if_true]
       cases ((x :: xs).length != position.length) <;> simp
+  have hrefs : truthy (Val.sized t.refs.length) = !t.refs.isEmpty := by cases t.refs <;> rfl
+  have hext : truthy (Val.rats extent) = (t.extLen != 0) := by rw [← he]; cases extent <;> rfl
   have h3 : fires env [.read .tag_references,
+      .anyIn (.read .tag_references___shape) none (.cmp .ne (.read .posdim) (.len .bound))] =
+      .ok (!t.refs.isEmpty && (refArrays arrays t.refs).any (fun da => t.posLen != da.shape.length)) := by
+    rw [fires_two env _ _ (.sized t.refs.length) _ rfl (fun _ => eval_rankMismatch env .none .tag_references___shape
+      .posdim position.length _ rfl rfl), hrefs, hp]
+    rfl
+  have h4 : fires env [.read .tag_references, .read .tag_extent,
+      .anyIn (.read .tag_references___shape) none (.cmp .ne (.read .extlen) (.len .bound))] =
+      .ok (!t.refs.isEmpty && (t.extLen != 0 && (refArrays arrays t.refs).any (fun da => t.extLen != da.shape.length))) := by
+    rw [fires_three env _ _ _ (.sized t.refs.length) (.rats extent) _ rfl (fun _ => rfl)
+      (fun _ _ => eval_rankMismatch env .none .tag_references___shape .extlen extent.length _ rfl rfl), hrefs, hext, he]
+    rfl
+  have h5 : fires env [.read .tag_references,
       .anyIn (.read .refs_units) none (.cmp .ne (.len .bound) (.len (.read .tag_units)))] =
       .ok (!t.refs.isEmpty && ((refArrays arrays t.refs).map getDimUnits).any (fun ru => ru.length != t.units.length)) := by
     rw [fires_two env _ _ (.sized t.refs.length) _ rfl (fun _ => eval_lenMismatch env .none .refs_units .tag_units
-      t.units _ rfl rfl)]
-    cases t.refs <;> rfl
-  have h4 : fires env [.anyIn (.read .tag_units) (some .bound) (.not (.call .isSi .bound))] = .ok (anyNonSi t.units) := by
+      t.units _ rfl rfl), hrefs]
+    rfl
+  have h6 : fires env [.anyIn (.read .tag_units) (some .bound) (.not (.call .isSi .bound))] = .ok (anyNonSi t.units) := by
     rw [fires_one env _ _ (eval_anyNonSi env .none .tag_units t.units rfl)]
     rfl
   have hf := fired_cons env MsgId.NoPosition _ _ _ _ h1 (fired_cons env MsgId.PositionExtentMismatch _ _ _ _ h2
-    (fired_cons env MsgId.ReferenceUnitsMismatch _ _ _ _ h3 (fired_cons env MsgId.InvalidUnit _ _ _ _ h4 (fired_nil _))))
+    (fired_cons env MsgId.PositionDimensionMismatch _ _ _ _ h3 (fired_cons env MsgId.ExtentDimensionMismatch _ _ _ _ h4
+    (fired_cons env MsgId.ReferenceUnitsMismatch _ _ _ _ h5 (fired_cons env MsgId.InvalidUnit _ _ _ _ h6 (fired_nil _))))))
   rw [guards_check_tag, hf]
-  cases (t.posLen == 0) <;> cases (t.extLen != 0 && t.extLen != t.posLen) <;>
-    cases (!t.refs.isEmpty && ((refArrays arrays t.refs).map getDimUnits).any (fun ru => ru.length != t.units.length)) <;>
-    cases anyNonSi t.units <;> rfl
+  exact congrArg Except.ok (chain6 _ _ _ _ _ _ _ _ _ _ _ _)
 
 /-! ## check_multi_tag -/
 
@@ -507,12 +572,21 @@ def shapeVal : Option (List Nat) → Val
   | none => .none
   | some sh => .ints (sh.map Int.ofNat)
 
+/-- `posdim` / `extdim`: `1 if len(shape) == 1 else shape[1]` (unassigned when there is no linked array) -/
+def dimVal (sh : Option (List Nat)) : Val :=
+  match sh.bind secondDim with
+  | some n => .int n
+  | none => .none
+
 def mtagEnv (pshape eshape : Option (List Nat)) (units : List Str) (nrefs : Nat) (refs : List DataArray) : Read → Val
   | .positions => linkedVal pshape
   | .mtag_extents => linkedVal eshape
   | .positions_shape => shapeVal pshape
   | .mtag_extents_shape => shapeVal eshape
   | .mtag_references => .sized nrefs
+  | .mtag_references___shape => .intss (refs.map fun da => da.shape.map Int.ofNat)
+  | .posdim => dimVal pshape
+  | .extdim => dimVal eshape
   | .refs_units => .strss (refs.map getDimUnits)
   | .mtag_units => .strs units
   | _ => .none
@@ -550,22 +624,44 @@ def pemFlag (ps : Option (List Nat)) : Option (List Nat) → Bool
   | some e => ps.isSome && firstLen e != some 0 && ps != some e
   | none => false
 
+/-- the model's tests for the two rank comparisons of a multi-tag -/
+def pdmFlag (ps : Option (List Nat)) (refs : List DataArray) : Bool :=
+  ps.isSome && refs.any (fun da => ps.bind secondDim != some da.shape.length)
+
+def edmFlag (refs : List DataArray) : Option (List Nat) → Bool
+  | some e => firstLen e != some 0 && refs.any (fun da => secondDim e != some da.shape.length)
+  | none => false
+
+theorem secondDim_cons (x : Nat) (xs : List Nat) : ∃ n, secondDim (x :: xs) = some n := by
+  cases xs with
+  | nil => exact ⟨1, rfl⟩
+  | cons y ys => exact ⟨y, rfl⟩
+
+theorem some_bne_some (a b : Nat) : (some a != some b) = (a != b) := by
+  by_cases h : a = b
+  · subst h; simp
+  · have e1 : (some a != some b) = true := by simpa using h
+    have e2 : (a != b) = true := by simpa using h
+    rw [e1, e2]
+
 /-- for a multi-tag whose shape reads do not raise (linked arrays have rank ≥ 1) -/
 theorem guards_multi_tag (arrays : List DataArray) (t : MultiTag)
     (hp : ∀ sh, MtPosShape arrays t = some sh → sh ≠ []) (he : ∀ sh, MtExtShape arrays t = some sh → sh ≠ []) :
     fired (mtagEnv (MtPosShape arrays t) (MtExtShape arrays t) t.units t.refs.length (refArrays arrays t.refs))
         guards_check_multi_tag =
       .ok ((if (MtPosShape arrays t).isNone || (MtPosShape arrays t).bind firstLen == some 0 then [.NoPositions] else []) ++
-           (match MtExtShape arrays t with
-            | some es => if (MtPosShape arrays t).isSome && firstLen es != some 0 && MtPosShape arrays t != some es
-                         then [.PositionsExtentsMismatch] else []
-            | none => []) ++
+           (if pemFlag (MtPosShape arrays t) (MtExtShape arrays t) then [.PositionsExtentsMismatch] else []) ++
+           (if !t.refs.isEmpty && pdmFlag (MtPosShape arrays t) (refArrays arrays t.refs)
+            then [.PositionsDimensionMismatch] else []) ++
+           (if !t.refs.isEmpty && edmFlag (refArrays arrays t.refs) (MtExtShape arrays t)
+            then [.ExtentsDimensionMismatch] else []) ++
            (if !t.refs.isEmpty && ((refArrays arrays t.refs).map getDimUnits).any (fun ru => ru.length != t.units.length)
             then [.ReferenceUnitsMismatch] else []) ++
            (if anyNonSi t.units then [.InvalidUnit] else [])) := by
   generalize hps : MtPosShape arrays t = ps at hp ⊢
   generalize hes : MtExtShape arrays t = es at he ⊢
   let env := mtagEnv ps es t.units t.refs.length (refArrays arrays t.refs)
+  have hrefs : truthy (Val.sized t.refs.length) = !t.refs.isEmpty := by cases t.refs <;> rfl
   have h1 : fires env [.not (.read .positions)] = .ok (ps.isNone || ps.bind firstLen == some 0) := by
     rw [fires_one env _ _ rfl]
     cases ps with
@@ -594,20 +690,53 @@ theorem guards_multi_tag (arrays : List DataArray) (t : MultiTag)
           · simp only [fires, eval, env, mtagEnv, linkedVal, shapeVal, truthy, ok_bind, pure_ok, hy, firstLen,
               List.headD_cons, compare_ne_shapes, pemFlag]
             by_cases hse : sh = y :: ys <;> simp [hse, hy]
-  have h3 : fires env [.read .mtag_references,
+  have h3 : fires env [.read .mtag_references, .isNotNone (.read .positions),
+      .anyIn (.read .mtag_references___shape) none (.cmp .ne (.read .posdim) (.len .bound))] =
+      .ok (!t.refs.isEmpty && pdmFlag ps (refArrays arrays t.refs)) := by
+    cases ps with
+    | none =>
+      rw [fires_three env _ _ _ (.sized t.refs.length) (.bool false) .none rfl (fun _ => rfl)
+        (fun _ h => by simp [truthy] at h), hrefs]
+      simp [pdmFlag, truthy]
+    | some sh =>
+      cases sh with
+      | nil => exact absurd rfl (hp [] rfl)
+      | cons x xs =>
+        obtain ⟨n, hn⟩ := secondDim_cons x xs
+        have hpd : env .posdim = .int n := by simp [env, mtagEnv, dimVal, hn]
+        rw [fires_three env _ _ _ (.sized t.refs.length) (.bool true) _ rfl (fun _ => rfl)
+          (fun _ _ => eval_rankMismatch env .none .mtag_references___shape .posdim n _ rfl hpd), hrefs]
+        simp only [pdmFlag, truthy_bool, Bool.true_and, Option.isSome_some, Option.bind_some, hn, some_bne_some]
+  have h4 : fires env [.read .mtag_references, .read .mtag_extents,
+      .anyIn (.read .mtag_references___shape) none (.cmp .ne (.read .extdim) (.len .bound))] =
+      .ok (!t.refs.isEmpty && edmFlag (refArrays arrays t.refs) es) := by
+    cases es with
+    | none =>
+      rw [fires_three env _ _ _ (.sized t.refs.length) .none .none rfl (fun _ => rfl)
+        (fun _ h => by simp [truthy] at h), hrefs]
+      simp [edmFlag, truthy]
+    | some e =>
+      cases e with
+      | nil => exact absurd rfl (he [] rfl)
+      | cons y ys =>
+        obtain ⟨n, hn⟩ := secondDim_cons y ys
+        have hed : env .extdim = .int n := by simp [env, mtagEnv, dimVal, hn]
+        rw [fires_three env _ _ _ (.sized t.refs.length) (.sized y) _ rfl (fun _ => rfl)
+          (fun _ _ => eval_rankMismatch env .none .mtag_references___shape .extdim n _ rfl hed), hrefs]
+        simp only [edmFlag, firstLen, List.head?_cons, hn, some_bne_some, truthy]
+  have h5 : fires env [.read .mtag_references,
       .anyIn (.read .refs_units) none (.cmp .ne (.len .bound) (.len (.read .mtag_units)))] =
       .ok (!t.refs.isEmpty && ((refArrays arrays t.refs).map getDimUnits).any (fun ru => ru.length != t.units.length)) := by
     rw [fires_two env _ _ (.sized t.refs.length) _ rfl (fun _ => eval_lenMismatch env .none .refs_units .mtag_units
-      t.units _ rfl rfl)]
-    cases t.refs <;> rfl
-  have h4 : fires env [.anyIn (.read .mtag_units) (some .bound) (.not (.call .isSi .bound))] = .ok (anyNonSi t.units) := by
+      t.units _ rfl rfl), hrefs]
+    rfl
+  have h6 : fires env [.anyIn (.read .mtag_units) (some .bound) (.not (.call .isSi .bound))] = .ok (anyNonSi t.units) := by
     rw [fires_one env _ _ (eval_anyNonSi env .none .mtag_units t.units rfl)]
     rfl
   have hf := fired_cons env MsgId.NoPositions _ _ _ _ h1 (fired_cons env MsgId.PositionsExtentsMismatch _ _ _ _ h2
-    (fired_cons env MsgId.ReferenceUnitsMismatch _ _ _ _ h3 (fired_cons env MsgId.InvalidUnit _ _ _ _ h4 (fired_nil _))))
+    (fired_cons env MsgId.PositionsDimensionMismatch _ _ _ _ h3 (fired_cons env MsgId.ExtentsDimensionMismatch _ _ _ _ h4
+    (fired_cons env MsgId.ReferenceUnitsMismatch _ _ _ _ h5 (fired_cons env MsgId.InvalidUnit _ _ _ _ h6 (fired_nil _))))))
   rw [guards_check_multi_tag, hf]
-  cases es with
-  | none => exact congrArg Except.ok (chain4 _ _ _ _ _ _ _ _)
-  | some e => exact congrArg Except.ok (chain4 _ _ _ _ _ _ _ _)
+  exact congrArg Except.ok (chain6 _ _ _ _ _ _ _ _ _ _ _ _)
 
 end Nix.Validator.Lemmas
